@@ -595,6 +595,42 @@ fn is_complete(c: &Case, file: Option<&[u8]>, expected_final: &[u8]) -> bool {
     }
 }
 
+fn expected_final_of(c: &Case) -> Vec<u8> {
+    let want = content(c);
+    match c.puller {
+        Puller::TrailerVerified | Puller::TrailerVerifiedAsync => want[..want.len().saturating_sub(c.trailer_len as usize)].to_vec(),
+        _ => want,
+    }
+}
+
+/// After an interrupted pull (whatever it left lying around), a later *successful*
+/// pull of different, shorter content to the same destination must publish exactly
+/// that content.
+fn republish_after_interruption(c: &Case, dest: &Path, what: &str) -> Result<(), Fail> {
+    let c2 = Case {
+        len: (c.len / 4).max(c.trailer_len as u32 + 1),
+        seed: c.seed ^ 0x5A5A,
+        failure: Failure::None,
+        ..c.clone()
+    };
+    let (_, code, _) = run_child("crash", &CrashCase { base: c2.clone(), crash_at: usize::MAX }, dest, None)?;
+    ensure!(code == Some(0), "harness-child", "follow-up child exited with {code:?}");
+    let want = expected_final_of(&c2);
+    let now = std::fs::read(dest).ok();
+    ensure!(
+        is_complete(&c2, now.as_deref(), &want),
+        "republish-after-interruption-inexact",
+        "after a pull {what}, a successful pull of {} bytes to the same destination left {:?} bytes there{}",
+        want.len(),
+        now.as_ref().map(|v| v.len()),
+        match &now {
+            Some(v) if v.len() >= want.len() && v[..want.len()] == want[..] => " (the new content followed by stale bytes)",
+            _ => "",
+        }
+    );
+    Ok(())
+}
+
 pub fn check_crash(c: &Case) -> CheckResult {
     // learn the hit sequence, then crash at every index
     let dir = scratch_dir();
@@ -630,6 +666,7 @@ pub fn check_crash(c: &Case) -> CheckResult {
     );
     let mut crashes = 0;
     let mut mid = false;
+    let mut republished = 0;
     for (i, name) in hits.iter().enumerate() {
         reset(&dest);
         let (_, code, _) = run_child("crash", &CrashCase { base: c.clone(), crash_at: i }, &dest, None)?;
@@ -655,6 +692,11 @@ pub fn check_crash(c: &Case) -> CheckResult {
             if name != "svs.chunk" || i > 0 {
                 mid = true;
             }
+            // whatever the killed pull left behind must not leak into a later publication
+            if hits.len() <= 12 || i + 5 >= hits.len() {
+                republish_after_interruption(c, &dest, &format!("killed at probe hit {i} ({name})"))?;
+                republished += 1;
+            }
         }
         crashes += 1;
     }
@@ -662,6 +704,7 @@ pub fn check_crash(c: &Case) -> CheckResult {
     Ok(CaseInfo::new(mid || c.preexisting)
         .class(format!("{:?}", c.puller))
         .class(format!("crash-points={}", crashes.min(12)))
+        .class(format!("republished-after-crash={}", republished.min(12)))
         .class(if c.preexisting { "pre-existing" } else { "absent" }))
 }
 
@@ -730,6 +773,9 @@ pub fn check_kill(k: &KillCase) -> CheckResult {
         prior.as_ref().map(|v| v.len()),
         want.len()
     );
+    if killed && !complete {
+        republish_after_interruption(c, &dest, &format!("SIGKILLed after {} us", k.kill_after_us))?;
+    }
     let _ = std::fs::remove_dir_all(&dir);
     Ok(CaseInfo::new(killed).class(if killed { "killed-mid-run" } else { "finished-first" }).class(if complete { "complete" } else { "unchanged" }))
 }
